@@ -22,3 +22,8 @@ import r_props as P
 PROPS["C04"]["rules"] += [P.t_props, P.h_proplen, P.h_dup, P.h_bytevals, P.l_propdec]
 PROPS["C01"]["rules"] += [P.t_prop3]
 PROPS["C10"]["rules"] += [P.t_propid]
+import r_poll as PL
+reg("C05", "other", [PL.h_borrow, PL.s_persist, PL.h_pending, PL.h_cap, PL.h_total, T.t_varint_readers], "dev", "dev")
+reg("C08", "other", [PL.h_total, PL.h_cap, T.t_width], "dev", "dev")
+reg("C03", "other", [PL.g_dispatch], "dev", "dev")
+PROPS["C04"]["rules"] += [PL.h_exactfill]
